@@ -55,15 +55,17 @@ def observe_api(scope: str) -> dict:
         yi = ycount.get(o, 0)
         ycount[o] = yi + 1
         ili = y.ili
+        imeta = '~'
         if ili is None:
             iv, idef = '', '~'
         elif ili.id:
             iv, idef = ili.id, '~'
         else:
             iv, idef = 'in', _a(ili.definition())
+            imeta = _meta(ili.metadata())
         T['asyn'].append([o, yi, y.id, _a(y.pos), iv, bool(y.lexicalized()), _a(y.lexfile()),
                           _meta(y.metadata()), _a(y.definition()), [s.id for s in y.senses()], idef,
-                          [str(l) for l in y.lemmas()]])
+                          [str(l) for l in y.lemmas()], imeta])
         for k, x in enumerate(y.examples()):
             T['ayex'].append([o, y.id, k, x])
     return T
